@@ -63,7 +63,8 @@ def heap_traffic_cases(backends, rng, count):
     return cases
 
 
-CORE_LEAF_FILES = ["LeafCoreFd.v", "LeafCoreTask.v", "LeafCoreMain.v", "LeafCoreEpoll.v", "LeafCorePoll.v"]
+CORE_LEAF_FILES = ["LeafCoreFd.v", "LeafCoreTask.v", "LeafCoreMain.v", "LeafCoreEpoll.v", "LeafCorePoll.v", "LeafCoreEvent.v",
+                   "LeafCoreLists.v"]
 
 
 class CoreCheck(LineCheck):
